@@ -47,6 +47,13 @@ REPS = {   # two representatives per shape
 }
 
 
+def calln(fn, *args): return {"e": "calln", "fn": fn, "as": list(args)}
+def match_(x, cases): return {"e": "match", "x": x, "cases": [{"p": p, "hasg": g is not None, "g": g if g is not None else lit(vnull()), "b": b} for p, g, b in cases]}
+def plit(v): return {"k": "lit", "v": v, "n": "", "ps": [], "rest": "", "fs": []}
+def pvar(n): return {"k": "var", "v": vnull(), "n": n, "ps": [], "rest": "", "fs": []}
+def pwild(): return {"k": "wild", "v": vnull(), "n": "", "ps": [], "rest": "", "fs": []}
+def parr(ps, rest=""): return {"k": "arr", "v": vnull(), "n": "", "ps": ps, "rest": rest, "fs": []}
+def pobj(fs): return {"k": "obj", "v": vnull(), "n": "", "ps": [], "rest": "", "fs": [{"key": k, "hasp": p is not None, "p": p if p is not None else pwild()} for k, p in fs]}
 def async_(b): return {"e": "async", "b": b}
 def await_(a): return {"e": "await", "a": a}
 
@@ -448,7 +455,7 @@ class Gen:
 
 def all_programs(tier, seed):
     rnd = random.Random(seed)
-    progs = operator_table() + precedence_table() + control_table() + optimizer_table()
+    progs = operator_table() + precedence_table() + control_table() + optimizer_table() + match_table() + string_table()
     g = Gen(rnd)
     for _ in range(600 if tier == "quick" else 12000):
         progs.append(g.program())
@@ -630,6 +637,94 @@ def async_programs(tier, seed):
         p = g.program()
         p["body"] = _no_continue_in_while(p["body"])
         progs.append(p)
+    for i, p in enumerate(progs):
+        p["id"] = i
+    return progs
+
+
+# ---- match expressions and string builtins (GlyphCore v2) ---------------------------------------------------
+def match_table():
+    out = []
+    I = lambda n: lit(vint(n))
+    S = lambda x: lit(vstr(x))
+    T, F = lit(vbool(True)), lit(vbool(False))
+    add = lambda a, b: bin_("+", a, b)
+    P = lambda body, tags, vars_=(): out.append(prog("", body, vars_, ["match"] + tags))
+    subjects = {"int": I(2), "float": lit(vfloat(2.0)), "str": S("ab"), "bool": T, "null": lit(vnull()), "arr": arr([I(1), I(2)]), "obj": obj([("a", I(1)), ("b", S("x"))])}
+    lits = {"int": vint(2), "float": vfloat(2.0), "str": vstr("ab"), "bool": vbool(True), "null": vnull()}
+    # literal patterns against every kind of subject (a type mismatch is "no match", never an error)
+    for sk, sv in subjects.items():
+        for lk, lv in lits.items():
+            P([decl("v", sv), ret(match_(var("v"), [(plit(lv), None, S("hit")), (pwild(), None, S("miss"))]))], ["literal", "%s-vs-%s" % (sk, lk)])
+        P([decl("v", sv), ret(match_(var("v"), [(plit(vint(77)), None, S("hit"))]))], ["no-case-matches", sk])
+        P([decl("v", sv), ret(match_(var("v"), [(pvar("w"), None, arr([var("w"), var("w")]))]))], ["variable-binds", sk])
+        P([decl("v", sv), ret(match_(var("v"), [(parr([pvar("p"), pvar("q")]), None, arr([var("q"), var("p")])), (parr([pvar("h")], "t"), None, var("t")), (pobj([("a", None)]), None, var("a")), (pwild(), None, S("other"))]))], ["shape-dispatch", sk])
+    # order, guards
+    for qv in (vint(1), vint(5), vint(50)):
+        q = [("qi", qv)]
+        P([ret(match_(var("qi"), [(plit(vint(1)), None, S("one")), (pvar("n"), bin_(">", var("n"), I(10)), S("big")), (pvar("n"), None, add(var("n"), I(100)))]))], ["guard", "falls-through-to-next"], q)
+        P([ret(match_(var("qi"), [(pvar("n"), None, S("first")), (plit(vint(1)), None, S("second"))]))], ["order", "first-match-wins"], q)
+        # a case that bound names and then failed must leave nothing behind
+        P([decl("n", I(100)), ret(match_(var("qi"), [(pvar("n"), bin_(">", var("n"), I(10)), S("big")), (pwild(), None, var("n"))]))], ["bindings", "failed-guard-leaves-no-binding"], q)
+        P([decl("limit", I(20)), ret(match_(arr([var("qi"), I(7)]), [(parr([pvar("limit"), plit(vint(8))]), None, S("never")), (parr([pvar("x"), pwild()]), bin_("<", var("x"), var("limit")), S("under")), (pwild(), None, S("over"))]))], ["bindings", "partial-destructure-leaves-no-binding"], q)
+        P([decl("a", I(9)), ret(match_(obj([("a", var("qi")), ("b", I(2))]), [(pobj([("a", None), ("zz", None)]), None, S("never")), (pobj([("b", pvar("k"))]), None, arr([var("a"), var("k")]))]))], ["bindings", "object-field-binding-dropped-on-missing-key"], q)
+        P([decl("n", I(100)), decl("r", match_(var("qi"), [(pvar("n"), None, add(var("n"), I(1)))])), ret(arr([var("r"), var("n")]))], ["bindings", "binding-shadows-not-overwrites"], q)
+        P([ret(match_(var("qi"), [(pvar("n"), I(1), S("x"))]))], ["guard", "non-boolean-guard"], q)
+        P([ret(match_(var("qi"), [(pvar("n"), bin_("==", bin_("/", I(1), I(0)), I(1)), S("x")), (pwild(), None, S("y"))]))], ["guard", "failing-guard-expression"], q)
+        P([ret(match_(bin_("/", var("qi"), I(0)), [(pwild(), None, S("x"))]))], ["subject-fails"], q)
+    # destructuring
+    P([ret(match_(arr([I(1), I(2), I(3)]), [(parr([pvar("a"), pvar("b")]), None, S("two")), (parr([pvar("a"), pvar("b"), pvar("c")]), None, arr([var("c"), var("b"), var("a")]))]))], ["array", "exact-length"])
+    P([ret(match_(arr([I(1), I(2), I(3)]), [(parr([pvar("h")], "t"), None, arr([var("h"), var("t")]))]))], ["array", "rest"])
+    P([ret(match_(arr([I(1)]), [(parr([pvar("h")], "t"), None, arr([var("h"), var("t")]))]))], ["array", "rest-empty"])
+    P([ret(match_(arr([]), [(parr([pvar("h")], "t"), None, S("some")), (parr([]), None, S("empty"))]))], ["array", "empty"])
+    P([ret(match_(arr([I(1), arr([I(2), I(3)])]), [(parr([pvar("a"), parr([pvar("b"), plit(vint(9))])]), None, S("never")), (parr([pvar("a"), parr([pvar("b"), pvar("c")])]), None, arr([var("a"), var("b"), var("c")]))]))], ["array", "nested"])
+    P([ret(match_(obj([("a", I(1)), ("b", obj([("c", S("deep"))]))]), [(pobj([("b", pobj([("c", pvar("x"))]))]), None, var("x"))]))], ["object", "nested"])
+    P([ret(match_(obj([("a", I(1))]), [(pobj([("a", plit(vint(2)))]), None, S("two")), (pobj([("a", plit(vfloat(1.0)))]), None, S("one-as-float")), (pwild(), None, S("other"))]))], ["object", "literal-field"])
+    P([decl("r", match_(I(3), [(plit(vint(3)), None, match_(S("in"), [(pvar("s"), None, add(var("s"), S("ner")))]))])), ret(var("r"))], ["nested-match"])
+    return out
+
+
+def string_table():
+    out = []
+    I = lambda n: lit(vint(n))
+    S = lambda x: lit(vstr(x))
+    P = lambda body, tags, vars_=(): out.append(prog("", body, vars_, ["strings"] + tags))
+    cjk40 = "\u65e5\u672c\u8a9e\u6f22\u5b57" * 8          # 40 characters, 120 bytes
+    cjk70 = "\u65e5\u672c\u8a9e\u6f22\u5b57\u4eee\u540d" * 10   # 70 characters
+    acc51 = "na\u00efve caf\u00e9 " * 4 + "abc"            # 51 characters, more bytes
+    strs = {"ascii": "Hello, World", "empty": "", "cjk": "\u65e5\u672c\u8a9e", "cjk40": cjk40, "cjk70": cjk70, "mixed": "a\u65e5b\u672cc", "accent51": acc51,
+            "ascii64": "x" * 64, "ascii20": "short ascii string!!"}
+    for name, sv in strs.items():
+        n = len(sv)
+        for a, b in [(0, 0), (0, 1), (0, n), (n, n), (0, n + 1), (n + 1, n + 1), (1, 0), (-1, 1), (0, 64), (0, 32), (0, 33), (2, min(5, n)), (n - 1 if n else 0, n)]:
+            P([decl("s", S(sv)), ret(calln("substring", var("s"), I(a), I(b)))], ["substring", name, "%d:%d" % (a, b)])
+        P([decl("s", S(sv)), ret(arr([call("length", var("s")), calln("upper", var("s")) if name not in ("accent51",) else I(0), calln("lower", var("s")) if name not in ("accent51",) else I(0), calln("trim", add_ws(var("s")))]))], ["case-trim-length", name])
+        for t in ("", "o", "\u672c", "zz", sv):
+            P([decl("s", S(sv)), ret(arr([calln("contains", var("s"), S(t)), calln("split", var("s"), S(t)) if n <= 12 else I(0)]))], ["contains-split", name, "t=%d" % len(t)])
+    P([ret(calln("split", S("a,b,,c,"), S(",")))], ["split", "empty-pieces"])
+    P([ret(calln("split", S("abc"), S("")))], ["split", "empty-separator"])
+    P([ret(calln("join", arr([S("a"), I(2), S("c")]), S("-")))], ["join", "strings-and-ints"])
+    P([ret(calln("join", arr([]), S("-")))], ["join", "empty"])
+    P([ret(calln("join", calln("split", S("a b c"), S(" ")), S("+")))], ["join", "of-split"])
+    # wrong types and arities are errors, not crashes
+    for fn, good in (("upper", [S("a")]), ("lower", [S("a")]), ("trim", [S("a")]), ("contains", [S("ab"), S("a")]), ("substring", [S("abc"), I(0), I(1)]), ("split", [S("a b"), S(" ")]), ("join", [arr([S("a")]), S(",")])):
+        bads = [I(1), lit(vnull()), arr([I(1)]), obj([("a", I(1))]), lit(vbool(True)), lit(vfloat(1.5))]
+        for pos in range(len(good)):
+            for bad in bads:
+                args = list(good)
+                args[pos] = bad
+                P([ret(calln(fn, *args))], ["bad-argument", fn, "arg%d" % pos])
+        P([ret(calln(fn, *good[:-1]))], ["arity", fn, "one-less"])
+        P([ret(calln(fn, *(good + [S("x")])))], ["arity", fn, "one-more"])
+    return out
+
+
+def add_ws(e):
+    return bin_("+", bin_("+", lit(vstr("  \t")), e), lit(vstr(" \n ")))
+
+
+def v2_programs(tier, seed):
+    progs = match_table() + string_table()
     for i, p in enumerate(progs):
         p["id"] = i
     return progs
